@@ -173,7 +173,7 @@ class _Run:
         elif k == 'num':
             obj.n = op['x']
         elif k == 'update':
-            items = [(PN[p % np_], self.vals.mk(v)) for p, v in op['items']]
+            items = [('e', True) if p == 'e' else (PN[p % np_], self.vals.mk(v)) for p, v in op['items']]
             if op.get('num') is not None:
                 items.append(('n', op['num']))
             self.last_update_items = list(items)
@@ -602,10 +602,13 @@ class FaultsWorld:
                 op = {'op': 'update', 'items': [[p, gen_value(rng, cfg['domain'])] for p in ps]}
                 if rng.random() < 0.3:
                     op['num'] = rng.randint(0, 10)
+                if rng.random() < 0.2:
+                    # an Event parameter among the keys (outside and inside open contexts)
+                    op['items'].insert(rng.randint(0, len(op['items'])), ['e', {'k': 'bool', 'x': True}])
                 ops.append(op)
             elif k == 'trigger':
                 ps = [rng.randrange(np_)]
-                if rng.random() < 0.3 and not depth:
+                if rng.random() < 0.3:
                     ps.append('e')
                 ops.append({'op': 'trigger', 'ps': ps})
             elif k == 'event':
